@@ -2,6 +2,7 @@
 from __future__ import annotations
 
 import hashlib
+import contextlib
 import json
 import os
 import shutil
@@ -33,6 +34,18 @@ DOCS = {
                                "B": {"allOf": [{"$ref": "#/definitions/A"}], "type": "object", "properties": {"w": {"type": ["number", "null"]}, "a": {"$ref": "#/definitions/A"}}},
                                "pets": {"type": "array", "items": {"$ref": "#/definitions/B"}}}},
 }
+DOCS["extras"] = {"title": "M", "type": "object", "properties": {
+    "label": {"type": "string", "description": "d", "x-unit": "none", "x-order": 3, "x-a": 1, "x-b": 2, "x-c": 3, "x-d": 4, "x-e": 5, "x-f": 6, "readOnly": True, "examples": ["e"]},
+    "n": {"type": "integer", "x-unit": "m", "x-scale": 2, "x-zeta": 0, "x-alpha": 1, "x-mid": 2, "title": "N"}}}
+EXTRA_KEYS = ["x-unit", "x-order", "x-a", "x-b", "x-c", "x-d", "x-e", "x-f", "x-scale", "x-zeta", "x-alpha", "x-mid"]
+# directory inputs whose parse order must not follow the order in which the OS lists a directory: files of the same name in
+# different directories, names that differ in case only, all referring to each other
+TWINS = {"a/pet.json": {"title": "PetA", "type": "object", "properties": {"o": {"$ref": "../b/pet.json#/definitions/Owner"}}, "definitions": {"Tag": {"type": "object", "properties": {"t": {"type": "string"}}}}},
+         "b/pet.json": {"title": "PetB", "type": "object", "properties": {"t": {"$ref": "../a/pet.json#/definitions/Tag"}}, "definitions": {"Owner": {"type": "object", "properties": {"n": {"type": "string"}}}}},
+         "c/other.json": {"title": "Other", "type": "object", "properties": {"p": {"$ref": "../a/pet.json"}, "q": {"$ref": "../b/pet.json"}}}}
+CASES = {"Pet.json": {"title": "Pet", "type": "object", "properties": {"o": {"$ref": "pet.json#/definitions/Owner"}}, "definitions": {"Tag": {"type": "object", "properties": {"t": {"type": "string"}}}}},
+         "pet.json": {"title": "Pets", "type": "object", "properties": {"t": {"$ref": "Pet.json#/definitions/Tag"}}, "definitions": {"Owner": {"type": "object", "properties": {"n": {"type": "string"}}}}},
+         "user.json": {"title": "User", "type": "object", "properties": {"p": {"$ref": "Pet.json"}, "q": {"$ref": "pet.json"}}}}
 OPTSETS = [
     {}, {"snake_case_field": True}, {"remove_special_field_name_prefix": True}, {"special_field_name_prefix": "zz"}, {"use_union_operator": True, "use_standard_collections": True},
     {"capitalise_enum_members": True}, {"field_constraints": True, "use_annotated": True}, {"reuse_model": True, "collapse_root_models": True}, {"use_title_as_name": True},
@@ -58,7 +71,27 @@ def fix_opts(o):
     if o.get("enum_field_as_literal"):
         from datamodel_code_generator.parser import LiteralType
         o["enum_field_as_literal"] = LiteralType(o["enum_field_as_literal"])
+    for k in ("field_extra_keys", "field_extra_keys_without_x_prefix"):
+        if k in o:
+            o[k] = set(o[k])
     return o
+
+
+@contextlib.contextmanager
+def reversed_listing():
+    """every way of listing a directory answers in the opposite order (what another file system / OS may do)"""
+    import pathlib
+    saved = [(pathlib.Path, n, getattr(pathlib.Path, n)) for n in ("rglob", "glob", "iterdir")] + [(os, "listdir", os.listdir)]
+    for obj, name, orig in saved:
+        if obj is os:
+            setattr(obj, name, (lambda orig: lambda *a, **k: list(reversed(orig(*a, **k))))(orig))
+        else:
+            setattr(obj, name, (lambda orig: lambda self, *a, **k: iter(list(orig(self, *a, **k))[::-1]))(orig))
+    try:
+        yield
+    finally:
+        for obj, name, orig in saved:
+            setattr(obj, name, orig)
 
 
 def run_one(job):
@@ -79,7 +112,8 @@ def run_one(job):
                     p = d / "in" / rel
                     p.parent.mkdir(parents=True, exist_ok=True)
                     p.write_text(json.dumps(doc))
-                g = e2e.generate(d / "in", kind=job["kind"], modular=True, **opts)
+                with (reversed_listing() if job.get("listing") == "reversed" else contextlib.nullcontext()):
+                    g = e2e.generate(d / "in", kind=job["kind"], modular=True, **opts)
             finally:
                 shutil.rmtree(d, ignore_errors=True)
         else:
@@ -201,7 +235,10 @@ def falsify(ctx):
     jobs = [{"tree": MULTI, "kind": "pydantic_v2.BaseModel", "opts": {}}, {"tree": MULTI, "kind": "pydantic_v2.BaseModel", "opts": {}, "reverse": True},
             {"doc": DOCS["unions"], "kind": "pydantic.BaseModel", "opts": {"reuse_model": True}},
             {"doc": DOCS["plain"], "kind": "typing.TypedDict", "opts": {"snake_case_field": True}, "formatters": ["black", "isort"]}]
-    prefetch([({"target": j}, sd) for j in jobs for sd in seeds])
+    jobs += [{"doc": DOCS["extras"], "kind": k, "opts": o} for k in KINDS + ["msgspec.Struct"]
+             for o in ({"field_include_all_keys": True}, {"field_extra_keys": EXTRA_KEYS}, {"field_extra_keys_without_x_prefix": EXTRA_KEYS})]
+    listing = [{"tree": t, "kind": k, "opts": o} for t in (TWINS, CASES) for k in ("pydantic_v2.BaseModel", "dataclasses.dataclass") for o in ({}, {"reuse_model": True})]
+    prefetch([({"target": j}, sd) for j in jobs for sd in seeds] + [({"target": dict(j, **x)}, 0) for j in listing for x in ({}, {"listing": "reversed"})])
     hist_cases = []
     for _ in range(ctx.n(14, 120)):
         target = {"doc": DOCS[rng.choice(list(DOCS))], "kind": rng.choice(KINDS), "opts": rng.choice(OPTSETS)}
@@ -227,6 +264,20 @@ def falsify(ctx):
     ctx.count("eval_subprocess", 2)
     if a != b:
         report("dir-order", "directory input created in a different order gives different output", {"hashseed": True, "job": jobs[1], "seeds": [0, 0], "against": jobs[0]})
+    # the order in which the OS lists a directory
+    for j in listing:
+        ctx.count("eval_subprocess", 2)
+        ctx.nontrivial(("listing", json.dumps(j, sort_keys=True)[:200]))
+        a, b = in_subprocess({"target": j}, 0), in_subprocess({"target": dict(j, listing="reversed")}, 0)
+        if "error" in a or "error" in b:
+            if ("error" in a) != ("error" in b):
+                report(f"listing:{json.dumps(j, sort_keys=True)[:160]}", f"a directory input generates or fails depending on the order in which the directory is listed ({a.get('error') or b.get('error')})",
+                       {"hashseed": True, "job": dict(j, listing="reversed"), "seeds": [0, 0], "against": j})
+            continue
+        if a != b:
+            diff = [k for k in set(a) | set(b) if a.get(k) != b.get(k)]
+            report(f"listing:{json.dumps(j, sort_keys=True)[:160]}", f"directory input {sorted(j['tree'])}: output differs with the order in which the directory is listed, in {diff[:3]}",
+                   {"hashseed": True, "job": dict(j, listing="reversed"), "seeds": [0, 0], "against": j})
     # (b) histories in one interpreter vs fresh interpreter
     for target, hist in hist_cases:
         ctx.count("eval_subprocess", 2)
